@@ -2,9 +2,16 @@ import Percival.Driver.Loop
 import Percival.Spec.AwsRequests
 import Percival.Model.AwsSign
 /-!
-`pmodel aws`.  State = the scripted clock.  L1 part: the strings the *published* algorithm
+`pmodel aws`.  State = the scripted clock, the harness's persistent body buffer (`bodyset`, body token `@`) and an
+armed allocation fault (`failat k`).  L1 part: the strings the *published* algorithm
 (`Spec.SigV4`) gives for the request documented in `aws_sign.h`, at the timestamp of the scripted
 clock.  L2 part: the strings `Model.AwsSign` (the C's asprintf layouts) builds.
+
+`bodyset <hex>` / `@`: the body of the request is the buffer's *current* contents, whatever address it has and
+whatever was signed from it before.  `failat k` (the k-th allocation of the next signing call fails; the harness
+repeats a call that reported failure without the fault): the L1 part is the Spec's value as always — a call either
+fails or returns exactly that; the L2 part says what the call under the fault reported, from the number of
+allocations the C makes per variant (lock-step detail, not part of the property).
 
 Inputs outside the domain of the property (characters that would need percent-encoding or
 trimming; the interface does neither) print `ood` at L1 and are compared at L2 only.
@@ -13,7 +20,7 @@ namespace Percival.Driver.Aws
 open Percival Percival.Driver Percival.Spec Percival.Spec.SigV4 Percival.Model.AwsSign
 
 /-- clock: `none` = `time()` fails -/
-abbrev St := Option Nat
+abbrev Clock := Option Nat
 
 def unres (s : Bytes) : Bool := s.all isUnreserved
 def unresPath (s : Bytes) : Bool := s.all fun c => isUnreserved c || c == 47
@@ -111,7 +118,7 @@ def kat : Nat → String
       [ascii "host", ascii "x-amz-date"]).map fun b => Char.ofNat b.toNat)
   | _ => "?"
 
-def step (now : St) (toks : List String) : St × String :=
+def stepSign (now : Clock) (toks : List String) : Clock × String :=
   match toks with
   | ["time", t] =>
       if t = "-1" then (none, "time -1") else
@@ -180,6 +187,42 @@ def step (now : St) (toks : List String) : St × String :=
       | _, _, _, _, _ => (now, "bad-op")
   | _ => (now, "bad-op")
 
-def main (_args : List String) : IO UInt32 := loop (some 0) step
+structure St where
+  now : Clock := some 0
+  /-- contents of the persistent body buffer; `none` before the first `bodyset` of a case -/
+  pbody : Option Bytes := none
+  /-- armed allocation fault (0 = none) -/
+  failat : Nat := 0
+
+/-- allocations made by one successful call: canonical request, "AWS4"+secret, string to sign, then the returned
+    strings (three for the header variants, one for the query string) -/
+def nAllocs (op : String) : Nat := if op = "s3q" then 4 else 6
+
+def isSign (op : String) : Bool := op = "s3h" || op = "s3q" || op = "svc" || op = "ddb"
+
+def step (s : St) (toks : List String) : St × String :=
+  match toks with
+  | ["bodyset", h] =>
+      match bytesOfHex h with
+      | some b => ({ s with pbody := some b }, s!"bodyset {b.length}")
+      | none => (s, "bad-op")
+  | ["failat", k] =>
+      match k.toNat? with
+      | some k => ({ s with failat := k }, s!"failat {k}")
+      | none => (s, "bad-op")
+  | op :: _ =>
+      let bodyTok := match s.pbody with
+        | some b => hexOfBytes b
+        | none => "ABSENT"
+      let toks := if op ≠ "s3q" && isSign op && toks.getLast? = some "@" then toks.dropLast ++ [bodyTok] else toks
+      let (now, line) := stepSign s.now toks
+      if isSign op && line ≠ "bad-op" then
+        let l2fail := (line.splitOn " | ").getLast? = some "fail"
+        let inj := if s.failat = 0 then "" else if l2fail || s.failat ≤ nAllocs op then " inj=fail" else " inj=ok"
+        ({ s with now := now, failat := 0 }, line ++ inj)
+      else ({ s with now := now }, line)
+  | [] => (s, "bad-op")
+
+def main (_args : List String) : IO UInt32 := loop {} step
 
 end Percival.Driver.Aws
